@@ -299,6 +299,11 @@ func (p *rxParser) atom() *T {
 			return class("whitespace", true)
 		case e >= '1' && e <= '9':
 			n := "_" + string([]byte{e})
+			if d := p.peek(); d >= '0' && d <= '9' && p.ngroups >= int(e-'0')*10+int(d-'0') {
+				// two digits name group 10..99 when that many groups exist
+				n += string([]byte{d})
+				p.i++
+			}
 			if !p.closed[n] {
 				p.err = "reference to a group that is not closed yet"
 			}
